@@ -31,6 +31,10 @@ func init() {
 	monitorCtors["C10"] = func(st *mon.Stats) mon.Monitor { return mon.NewValSets() }
 
 	std := func(prop string, mons []string, rule string, floor int) {
+		pre := func(th bool) func(time.Time) ([]ev.Violation, map[string]interface{}) { return nil }
+		if prop == "C10" {
+			pre = refDynPre
+		}
 		checks[prop] = func(args []string) int {
 			th := ev.Tier() == "thorough"
 			b := 170 * time.Second
@@ -42,11 +46,12 @@ func init() {
 				Phases: standardPhases(mons, 40, th),
 				Floor:  floor,
 				Rule:   rule,
+				Pre:    pre(th),
 			})
 		}
 	}
 	const common = "executions = all action sequences up to the stated depth (S1, state matching) and all schedules within the stated number of deviations from fair seeds followed by a fair suffix (S3); distinct_nontrivial = distinct final cluster states of executions in which a block index was delivered by two nodes holding different event sets at that moment. Oracle after every step: "
 	std("C02", []string{"C01", "C02"}, common+"per node the commit callbacks have consecutive indexes (from 0, or anchor+1), strictly increasing round-received; Node.GetBlock(i) for every delivered i equals the delivered body + state hash + receipts; signatures only grow", 50)
 	std("C04", []string{"C01", "C04"}, common+"for every processed round the frame's event list is compared with the harness's own record of every event's parents and payload: each parent is committed strictly earlier, no event twice, block transactions = concatenation of the events' payloads in frame order, frame = exactly the events whose private round-received is that round", 50)
-	std("C10", []string{"C01", "C10sig", "C10"}, common+"GetAllValidatorSets()/GetValidatorSet(r) of every node equal a reference replay (genesis set, accepted receipts of its delivered blocks applied in order, effective at round-received+6); entries never change; nodes agree; each block's peers hash is the hash of the set at its round-received; every witness's creator is in its round's set; every block signature a node has recorded is by a member of the set of the block's round-received", 50)
+	std("C10", []string{"C01", "C10sig", "C10"}, common+"GetAllValidatorSets()/GetValidatorSet(r) of every node equal a reference replay (genesis set, accepted receipts of its delivered blocks applied in order, effective at round-received+6); entries never change; nodes agree; each block's peers hash is the hash of the set at its round-received; every witness's creator is in its round's set; every block signature a node has recorded is by a member of the set of the block's round-received. Before the phases (the clause about what is counted in a quorum): 64 (thorough 360) DAGs with joins and leaves are inserted event by event and every fame decision is re-derived by the harness's own vote count – strongly-seen witnesses of round j-1 over the set of round j-1, the decision threshold over the set of round j – when first reported and again on the final state", 50)
 }
